@@ -267,7 +267,24 @@ pub const DRAM_STACK_LO: u32 = 0x44f000;
 pub const DRAM_STACK_TOP: u32 = 0x450000;
 
 impl GuestSpec {
+    /// a recursion deeper than the ordinary stacks hold gets 64 KiB at the top of the big DRAM area
+    fn deep_stack(&self) -> bool {
+        self.stack_dram && self.handlers.iter().any(|h| matches!(h.kind, HandlerKind::Recurse(_, d) if d > 450))
+    }
+
     pub fn layout(&self) -> Layout {
+        if self.deep_stack() {
+            return Layout {
+                code: if self.code_dram { DRAM_CODE } else { RAM_CODE },
+                code_limit: if self.code_dram { DRAM_HANDLERS } else { RAM_HANDLERS },
+                handlers: if self.code_dram { DRAM_HANDLERS } else { RAM_HANDLERS },
+                handlers_limit: if self.code_dram { DRAM_DATA } else { RAM_DATA },
+                data: if self.data_dram { DRAM_DATA } else { RAM_DATA },
+                data_limit: if self.data_dram { DRAM_DATA_LIMIT } else { RAM_STACK_LO },
+                stack_top: DRAM_BIG_LIMIT,
+                stack_lo: DRAM_BIG_LIMIT - 0x10000,
+            };
+        }
         Layout {
             code: if self.code_dram { DRAM_CODE } else { RAM_CODE },
             code_limit: if self.code_dram { DRAM_HANDLERS } else { RAM_HANDLERS },
@@ -657,6 +674,14 @@ impl GuestSpec {
                 a.jmp_abs(e + 1);
                 e
             }
+            11 => {
+                // the transfer goes to the exit address with a non-zero byte above its 24 bits (JMP @ER0): whether that IS
+                // the exit address or an address nothing can be fetched from is the emulator's to say - consistently
+                let e = a.here() + 8;
+                a.mov_l_imm(0, 0x5a00_0000 | e);
+                a.jmp_ern(0);
+                e
+            }
             10 => {
                 // an odd exit address, reached exactly
                 let e = a.here() + 4 + 1;
@@ -673,7 +698,7 @@ impl GuestSpec {
         if a.here() > lay.code_limit {
             return Err("main code does not fit".into());
         }
-        if data.here() > lay.data_limit || big.here() > DRAM_BIG_LIMIT {
+        if data.here() > lay.data_limit || big.here() > DRAM_BIG_LIMIT - if self.deep_stack() { 0x10000 } else { 0 } {
             return Err("data does not fit".into());
         }
 
@@ -726,7 +751,9 @@ impl GuestSpec {
                 dram_windows.push((*base, *base + bytes.len() as u32));
             }
         }
-        if self.stack_dram {
+        if self.deep_stack() {
+            dram_windows.push((DRAM_BIG_LIMIT - 0x10000, DRAM_BIG_LIMIT));
+        } else if self.stack_dram {
             dram_windows.push((DRAM_STACK_LO, DRAM_STACK_TOP));
         }
         Ok(Guest {
